@@ -12,10 +12,14 @@ Open Scope Z_scope.
 
 Definition plain_key (k : str) : Prop := k <> k_dollar_schema /\ k <> k_id /\ k <> k_headers.
 
+Section Data.
+(* the numbers of the data and of the schema are finite (JSON has no other) *)
+Variable fin : f64 -> Prop.
+
 Fixpoint jd (v : goval) : Prop :=
   match v with
   | VBool _ | VStr _ => True
-  | VFlt is32 _ => is32 = false
+  | VFlt is32 f => is32 = false /\ fin f
   | VArr _ l => (fix all (l : list goval) : Prop := match l with [] => True | x :: t => jd x /\ all t end) l
   | VObj _ m =>
       (fix all (m : list (str * goval)) : Prop :=
@@ -59,10 +63,10 @@ Variable N : numops.
 Variable opt : options.
 Hypothesis Hopt_items : opt_array_must_have_items opt = false.
 Hypothesis Hopt_array : opt_obj_array_type_check opt = false.
-Hypothesis Hord : forall a b, n_lt N a b = negb (n_le N b a).
+Hypothesis Hord : forall a b, fin a -> fin b -> n_lt N a b = negb (n_le N b a).
 
-Lemma Hord' a b : n_le N a b = negb (n_lt N b a).
-Proof. rewrite Hord, negb_involutive. reflexivity. Qed.
+Lemma Hord' a b : fin a -> fin b -> n_le N a b = negb (n_lt N b a).
+Proof. intros Ha Hb. rewrite (Hord b a Hb Ha), negb_involutive. reflexivity. Qed.
 
 (* ------------------------------------------------------------------ equality of JSON values *)
 
@@ -86,7 +90,7 @@ Lemma deq_jeq : forall fuel a b, jd a -> jd b -> deep_eq_fuel N fuel a b = json_
 Proof.
   induction fuel as [|f IH]; intros a b Ha Hb; [reflexivity|].
   destruct a as [| | |a32 fa| | |ida la| |ida ma]; try (exfalso; exact Ha); destruct b as [| | |b32 fb| | |idb lb| |idb mb]; try (exfalso; exact Hb); try reflexivity.
-  - cbn [deep_eq_fuel json_eq_fuel]. cbn [jd] in Ha, Hb. subst. reflexivity.
+  - cbn [deep_eq_fuel json_eq_fuel]. cbn [jd] in Ha, Hb. destruct Ha as [-> _]. destruct Hb as [-> _]. reflexivity.
   - cbn [deep_eq_fuel json_eq_fuel]. apply jd_arr in Ha. apply jd_arr in Hb. revert lb Hb.
     induction Ha as [|x t Hx Ht IHl]; intros [|y u] Hb; try reflexivity. inversion Hb; subst.
     rewrite (IH x y); [|assumption|assumption]. f_equal. apply IHl. assumption.
@@ -106,7 +110,7 @@ Proof.
   intros Hd He. pose proof (deep_eq_json_eq d e Hd He) as H.
   destruct d as [| | |d32 fd| | |idd ld| |idd md]; try (exfalso; exact Hd); destruct e as [| | |e32 fe| | |ide le| |ide me]; try (exfalso; exact He);
     try exact H; try reflexivity.
-  cbn [jd] in Hd, He. subst. reflexivity.
+  cbn [jd] in Hd, He. destruct Hd as [-> _]. destruct He as [-> _]. reflexivity.
 Qed.
 
 (* ------------------------------------------------------------------ leaf keyword groups *)
@@ -150,7 +154,7 @@ Proof.
   - (* string *)
     transitivity (contains k_string tys); [|rewrite contains_existsb; apply existsb_ext; intros; reflexivity].
     destruct (contains k_number tys), (contains k_integer tys), (contains k_string tys); reflexivity.
-  - (* number *) cbn [jd] in Hd. subst d32.
+  - (* number *) cbn [jd] in Hd. destruct Hd as [-> _].
     transitivity (contains k_number tys || (n_is_int N fd && contains k_integer tys)).
     { cbn [info_for_type]. destruct (contains k_number tys), (contains k_integer tys), (n_is_int N fd); reflexivity. }
     rewrite !contains_existsb. rewrite (andb_comm (n_is_int N fd)). rewrite <- existsb_and_const, <- existsb_or. reflexivity.
@@ -173,20 +177,23 @@ Proof.
 Qed.
 
 (* 5.1: on a JSON number the native dispatch is the float path *)
-Lemma number_agree p s is32 f : is32 = false ->
+Definition bounds_fin (s : schema) : Prop :=
+  (forall m, s_maximum s = Some m -> fin m) /\ (forall m, s_minimum s = Some m -> fin m).
+
+Lemma number_agree p s is32 f : is32 = false /\ fin f -> bounds_fin s ->
   r_valid (number_validate N p s (VFlt is32 f)) = numeric_ok N s (VFlt is32 f).
 Proof.
-  intros ->.
-  assert (Fmax : forall m ex e, r_valid (if max_native N (VFlt false f) m ex then merge new_res (Some (s_err e)) else new_res)
+  intros [-> Hf] [Hbmax Hbmin].
+  assert (Fmax : forall m ex e, fin m -> r_valid (if max_native N (VFlt false f) m ex then merge new_res (Some (s_err e)) else new_res)
                              = (if ex then n_lt N f m else n_le N f m)).
-  { intros m ex e. unfold max_native, as_float64, max_float. destruct ex.
-    - rewrite (Hord f m). destruct (n_le N m f); reflexivity.
-    - rewrite (Hord' f m). destruct (n_lt N m f); reflexivity. }
-  assert (Fmin : forall m ex e, r_valid (if min_native N (VFlt false f) m ex then merge new_res (Some (s_err e)) else new_res)
+  { intros m ex e Hm. unfold max_native, as_float64, max_float. destruct ex.
+    - rewrite (Hord f m Hf Hm). destruct (n_le N m f); reflexivity.
+    - rewrite (Hord' f m Hf Hm). destruct (n_lt N m f); reflexivity. }
+  assert (Fmin : forall m ex e, fin m -> r_valid (if min_native N (VFlt false f) m ex then merge new_res (Some (s_err e)) else new_res)
                              = (if ex then n_lt N m f else n_le N m f)).
-  { intros m ex e. unfold min_native, as_float64, min_float. destruct ex.
-    - rewrite (Hord m f). destruct (n_le N f m); reflexivity.
-    - rewrite (Hord' m f). destruct (n_lt N f m); reflexivity. }
+  { intros m ex e Hm. unfold min_native, as_float64, min_float. destruct ex.
+    - rewrite (Hord m f Hm Hf). destruct (n_le N f m); reflexivity.
+    - rewrite (Hord' m f Hm Hf). destruct (n_lt N f m); reflexivity. }
   assert (Fmul : forall m e1 e2, r_valid (match mult_native N (VFlt false f) m with
                                           | MOk => new_res
                                           | MNotMultiple => merge new_res (Some (s_err e1))
@@ -195,7 +202,7 @@ Proof.
   { intros m e1 e2. unfold mult_native, as_float64. destruct (n_mult_of N f m); reflexivity. }
   unfold number_validate, numeric_ok. rewrite r_valid_inc, !r_valid_merge.
   destruct (s_multiple_of s) as [mu|], (s_minimum s) as [mn|], (s_maximum s) as [mx|];
-    rewrite ?Fmax, ?Fmin, ?Fmul; cbn [r_valid new_res r_errs andb];
+    rewrite ?Fmax, ?Fmin, ?Fmul by (first [apply Hbmax; reflexivity | apply Hbmin; reflexivity]); cbn [r_valid new_res r_errs andb];
     repeat match goal with
            | |- context [if ?b then _ else _] => destruct b
            | |- context [match n_mult_of N ?a ?b with _ => _ end] => destruct (n_mult_of N a b)
@@ -698,7 +705,7 @@ Qed.
 Definition local_clean (s : schema) : Prop :=
   s_ref s = None /\ s_format s = 0 /\ s_nullable s = false /\ Forall jd (s_enum s) /\
   (s_pattern s = 0 \/ o_re_ok OR (s_pattern s) = true) /\
-  array_clean s /\ object_clean s /\ comp_clean s.
+  array_clean s /\ object_clean s /\ comp_clean s /\ bounds_fin s.
 
 Lemma r_valid_r0 s : r_valid (if opt_skip_schemata opt then new_res else mkRes [] 0 [s_default s] [] []) = true.
 Proof. destruct (opt_skip_schemata opt); reflexivity. Qed.
@@ -706,7 +713,7 @@ Proof. destruct (opt_skip_schemata opt); reflexivity. Qed.
 Lemma body_agree s p q d : local_clean s -> kids goodc s -> jd d ->
   exists r, sv_body OR N opt rec_sp s p q d = Ok r /\ d4_body OR N recd s d = Some (r_valid r).
 Proof.
-  intros [_ [Hfmt [Hnull [Henum [Hpat [Harr [Hobj Hcomp]]]]]]] K Hd.
+  intros [_ [Hfmt [Hnull [Henum [Hpat [Harr [Hobj [Hcomp Hbf]]]]]]]] K Hd.
   pose proof (type_agree p (s_types s) d Hd) as Ht.
   pose proof (enum_agree p s d Hd Henum) as He.
   destruct (props_agree p s d K Hcomp Hd) as [x2 [Hx2 Hc]].
@@ -736,7 +743,7 @@ Proof.
         change (all_opt [Some a; Some b; Some true; Some c; Some true; Some true; Some e]) with (Some (a && (b && (true && (c && (true && (true && (e && true))))))))
       end; f_equal; destruct (string_validate OR p s (VStr x)); btauto.
   - (* number *)
-    cbn [jd] in Hd. pose proof (number_agree p s d32 f Hd) as Hn.
+    cbn [jd] in Hd. pose proof (number_agree p s d32 f Hd Hbf) as Hn.
     cbv beta iota zeta. fold r0. fold r1. rewrite Hx2. cbn [bind is_string_kind is_number_kind is_slice_kind is_map_kind format_applies andb].
     eexists. split; [reflexivity|]. cbn [string_ok array_ok object_ok].
     repeat (rewrite r_valid_inc || rewrite r_valid_merge). rewrite Hr1, He, Hn.
@@ -762,3 +769,40 @@ Proof.
 Qed.
 
 End Agree.
+
+(* ------------------------------------------------------------------ every level, by induction on the nesting depth *)
+
+Section Whole.
+Variable OR : oracles.
+Variable N : numops.
+Variable opt : options.
+Variable defs : env.
+Hypothesis Hopt_items : opt_array_must_have_items opt = false.
+Hypothesis Hopt_array : opt_obj_array_type_check opt = false.
+Hypothesis Hord : forall a b, fin a -> fin b -> n_lt N a b = negb (n_le N b a).
+
+Fixpoint clean (n : nat) (s : schema) {struct n} : Prop :=
+  match n with
+  | O => False
+  | S m => local_clean OR s /\ kids (clean m) s
+  end.
+
+Lemma clean_bounded : forall n s, clean n s -> bounded n s.
+Proof.
+  induction n as [|n IH]; intros s H; [exact H|]. destruct H as [[Href _] K]. split; [exact Href|].
+  eapply kids_impl; [|exact K]. exact (IH).
+Qed.
+
+Theorem clean_fragment_agrees : forall n fuel s, clean n s -> (n < fuel)%nat -> forall p q d, jd d ->
+  exists r, sv_validate OR N opt defs fuel s p q d = Ok r /\ d4 OR N defs fuel s d = Some (r_valid r).
+Proof.
+  induction n as [|n IH]; intros fuel s Hc Hlt p q d Hd; [destruct Hc|]. destruct fuel as [|f]; [lia|].
+  pose proof (clean_bounded (S n) s Hc) as Hb. destruct Hc as [Hl K]. pose proof Hl as [Href _].
+  cbn [sv_validate d4]. rewrite (eager_bounded defs (S n) f s Hb); [|lia]. cbn [bind].
+  rewrite (resolve_ref_free defs f s Href). cbn [bind]. rewrite Href.
+  apply (body_agree OR N opt Hopt_items Hopt_array Hord (sv_validate OR N opt defs f) (d4 OR N defs f) s p q d Hl); [|exact Hd].
+  eapply kids_impl; [|exact K]. intros c Hcc p' q' d' Hd'. apply IH; [exact Hcc | lia | exact Hd'].
+Qed.
+
+End Whole.
+End Data.
